@@ -186,11 +186,32 @@ static void run_card(uint64_t idx) {
   H->count("round_trips");
 }
 
+
+// ---- space "reserved": the names that describe the table itself are refused whatever follows the reserved prefix and whatever
+// the length of the key (short path and HIERARCH path), and the store stays as it was
+static void run_reserved(uint64_t idx) {
+  static const char* PRE[] = {"BITPIX", "SIMPLE", "TYPE", "ORDER", "NAXIS", "PERIOD", "EXTEND", "COMMENT"};
+  static const char* SUF[] = {"", "0", "7", "X", "ED", "ARY", "OFMAGNITUDE", "_OF_ROTATION", " LABELS", "1234567890123456789012345678901234567890"};
+  std::string key = std::string(PRE[idx / 10]) + SUF[idx % 10];
+  std::string where = "[reserved-prefix key '" + key + "' (" + std::to_string(key.size()) + " characters)]"; H->hint(where);
+  tg::TableSpec spec; spec.dims.push_back({2, tg::make_knots(tg::K_UNIFORM, 2, 8)}); spec.coeffs = tg::make_coeffs(1, spec.ncoeffs(), 3, 0);
+  Table t; tg::build(t, spec); t.write_key("FIRST", 1);
+  Model m; model_write(m, "FIRST", "1");
+  bool threw = false; std::string msg;
+  for (int kind = 0; kind < 3 && !threw; kind++) { try { if (kind == 0) t.write_key(key.c_str(), std::string("v")); else if (kind == 1) t.write_key(key.c_str(), 5); else t.write_key(key.c_str(), 0.25); } catch (std::exception& e) { threw = true; msg = e.what(); }
+    H->count("evaluations");
+    if (!threw) { H->violation(std::string("write-that-must-be-rejected-was-accepted:reserved-prefix:") + (key.size() <= 8 ? "short-key" : "long-key"), where); break; } threw = false; }
+  { struct splinetable st; st.data = &t; if (splinetable_write_key(&st, SPLINETABLE_INT, key.c_str(), &idx) == 0 && t.get_naux_values() != 1) H->violation("C-write_key-accepts-reserved-prefix", where); }
+  g_keys_all = {"FIRST", key, "ABSENT"};
+  if (t.get_naux_values() == 1) compare(t, m, where);
+  H->cls(std::string("reserved|") + PRE[idx / 10]);
+}
+
 int main(int argc, char** argv) {
   vf::Harness h("C16", argc, argv);
   H = &h;
   h.meta("level", "model_checking");
-  h.meta("rule", "breadth-first search to a FIXPOINT over the auxiliary-key store of a real table (populated 1-d table, and an empty one): state = ordered list of (key, value without trailing blanks); operations: write_key of every (key, value) of the alphabet (accepted keys: short, 8-character, long/HIERARCH; values: int, double, empty string, short string, string with a quote, [thorough: negative int, 40 quotes, embedded blanks], the maximal length for the key and one more), write_key with 12 keys that must be rejected (reserved prefixes, lower case, punctuation, '=', empty, leading / trailing blank, 67 characters), remove_key of present and absent keys, and a FITS round trip (write_fits_mem + read_fits_mem into a fresh table, continuing on it); because the value set is finite the search covers histories of every length; each transition replays the shortest history on a fresh object; oracle = insertion-ordered reference map stepped in lock-step: exceptions, return values, store size, key order, get_aux_value, string / int / double typed reads, C get_key / read_key, for every key of the alphabet after every transition; space 'cards' (one step on a fresh populated table, then a round trip): key length in {1,2,7,8,9,10,11,20,40,65,66,67,68,80,200} x {clean, one character replaced at the first / middle / last position by blank . - _ a = ' / TAB 0x01 0x7f 0xe9} x value of encoded length {0, 1, capacity-1, capacity, capacity+1} x {plain, leading quote, all quotes, leading blank, embedded TAB, embedded 0xe9}: accepted exactly when the model accepts, store unchanged on rejection, every accepted entry found under its key with its value after write_fits_mem + read_fits_mem");
+  h.meta("rule", "breadth-first search to a FIXPOINT over the auxiliary-key store of a real table (populated 1-d table, and an empty one): state = ordered list of (key, value without trailing blanks); operations: write_key of every (key, value) of the alphabet (accepted keys: short, 8-character, long/HIERARCH; values: int, double, empty string, short string, string with a quote, [thorough: negative int, 40 quotes, embedded blanks], the maximal length for the key and one more), write_key with 12 keys that must be rejected (reserved prefixes, lower case, punctuation, '=', empty, leading / trailing blank, 67 characters), remove_key of present and absent keys, and a FITS round trip (write_fits_mem + read_fits_mem into a fresh table, continuing on it); because the value set is finite the search covers histories of every length; each transition replays the shortest history on a fresh object; oracle = insertion-ordered reference map stepped in lock-step: exceptions, return values, store size, key order, get_aux_value, string / int / double typed reads, C get_key / read_key, for every key of the alphabet after every transition; space 'cards' (one step on a fresh populated table, then a round trip): key length in {1,2,7,8,9,10,11,20,40,65,66,67,68,80,200} x {clean, one character replaced at the first / middle / last position by blank . - _ a = ' / TAB 0x01 0x7f 0xe9} x value of encoded length {0, 1, capacity-1, capacity, capacity+1} x {plain, leading quote, all quotes, leading blank, embedded TAB, embedded 0xe9}: accepted exactly when the model accepts, store unchanged on rejection, every accepted entry found under its key with its value after write_fits_mem + read_fits_mem; space 'reserved': the eight reserved prefixes x ten continuations (none, digits, letters, long HIERARCH-length tails, with blank / underscore) through the string, int and double writers and the C writer: refused, store unchanged");
   h.meta("assumption", "key alphabet of 2 (quick) / 3 (thorough) accepted keys; value trailing blanks are not part of the state (the property allows a round trip to add them)");
   h.meta("require_states", "50");
   h.meta("deadline_quick", "900"); h.meta("deadline_thorough", "3000");
@@ -198,5 +219,6 @@ int main(int argc, char** argv) {
   bool full = h.thorough;
   h.add_space("stores", 2, [full](uint64_t i) { explore(i == 0, full); });
   h.add_space("cards", 15ull * 13 * 3 * 5 * 6, run_card);
+  h.add_space("reserved", 80, run_reserved);
   return h.main();
 }
